@@ -56,8 +56,21 @@ BadFuzz(e) ==
   \cup T(e.alloc > 64 * Len(e.in) + 1048576, "C03.alloc")
   \cup T(e.type # "" /\ e.outcome = "ok" /\ ~MandatoryComplete(e.type, e.in), "C03.short_accepted")
 
+\* SMGP 3.0.3, 6.3.1: the tag values of the optional parameters
+SmgpTagOf(name) ==
+  CASE name = "TP_pid" -> 1 [] name = "TP_udhi" -> 2 [] name = "LinkID" -> 3 [] name = "ChargeUserType" -> 4
+    [] name = "ChargeTermType" -> 5 [] name = "ChargeTermPseudo" -> 6 [] name = "DestTermType" -> 7 [] name = "DestTermPseudo" -> 8
+    [] name = "PkTotal" -> 9 [] name = "PkNumber" -> 10 [] name = "SubmitMsgType" -> 11 [] name = "SPDealReslt" -> 12
+    [] name = "SrcTermType" -> 13 [] name = "SrcTermPseudo" -> 14 [] name = "NodesCount" -> 15 [] name = "MsgSrc" -> 16
+    [] name = "SrcType" -> 17 [] name = "MServiceID" -> 18
+BadTags(e) ==
+  T(Len(e.rows) # 18, "C02.driver")
+  \cup T(\E i \in 1..Len(e.rows) : LET r == e.rows[i] IN
+            r.value # SmgpTagOf(r.name) \/ r.image # <<0, SmgpTagOf(r.name), 0, 1, 90>>, "C02.layout.option_tag")
+
 Bad(e) ==
-  CASE e.ev = "RT" -> BadRT(e) \cup T(e.type = "cmpp.SubPduDeliveryContent" /\ BadRT(e) # {}, "C18.statusreport")
+  CASE e.ev = "TagTable" -> BadTags(e)
+    [] e.ev = "RT" -> BadRT(e) \cup T(e.type = "cmpp.SubPduDeliveryContent" /\ BadRT(e) # {}, "C18.statusreport")
     [] e.ev = "Relay" -> BadRelay(e)
     [] e.ev = "Fuzz" -> BadFuzz(e)
 
